@@ -92,7 +92,7 @@ func (t *tx) tr(e ast.Expr) (string, string) {
 		// constructors
 		fn := src(t.fset, x.Fun)
 		switch fn {
-		case "sdk.NewInt", "sdk.NewIntFromUint64", "int64", "sdk.NewDec":
+		case "sdk.NewInt", "sdk.NewIntFromUint64", "int64", "uint64", "sdk.NewDec":
 			if len(x.Args) == 1 {
 				a, _ := t.tr(x.Args[0])
 				if fn == "sdk.NewDec" {
@@ -112,6 +112,12 @@ func (t *tx) tr(e ast.Expr) (string, string) {
 			if len(x.Args) == 1 {
 				a, _ := t.tr(x.Args[0])
 				return "(Dec.ofInt " + a + ")", "dec"
+			}
+		case "vm.Min":
+			if len(x.Args) == 2 {
+				a, _ := t.tr(x.Args[0])
+				b, _ := t.tr(x.Args[1])
+				return "(min " + a + " " + b + ")", "int"
 			}
 		case "sdk.MinInt":
 			if len(x.Args) == 2 {
